@@ -963,6 +963,19 @@ func ruleD6(w *world.World, r *report.RuleResult) {
 		return o
 	}
 	wm, rm = strip(wm), strip(rm)
+	// a bare format verb ("%d" in fmt.Sprintf("%d", msec)) is how a number is printed, not a path
+	// component: strconv.FormatInt(msec, 10) builds the same name without it
+	verb := func(s []string) []string {
+		var o []string
+		for _, x := range s {
+			if len(x) >= 2 && x[0] == '%' && strings.Trim(x[1:len(x)-1], "0123456789.+-# ") == "" && strings.ContainsAny(x[len(x)-1:], "dvs") {
+				continue
+			}
+			o = append(o, x)
+		}
+		return o
+	}
+	wm, rm, wst, rst = verb(wm), verb(rm), verb(wst), verb(rst)
 	key := fname + "|e:writer-reader-paths"
 	if len(wst) > 0 && strings.Join(wst, "/") == strings.Join(rst, "/") && strings.Join(wm, "/") == strings.Join(rm, "/") {
 		r.OK(key, w.Pos(rs.Pos()), fmt.Sprintf("writer and reader build the same paths: manifest %v, state %v", wm, wst))
